@@ -157,6 +157,29 @@ func (s *System) Kill(host string) {
 	m.cancel()
 }
 
+// Stop releases everything the system keeps running in the background: every
+// supervisor context is cancelled and the driver-side machines (their keepalive
+// loops) are cancelled. For harnesses that create
+// one system per explored execution; the system must not be used afterwards.
+func (s *System) Stop() {
+	s.mu.Lock()
+	var ms []*mach
+	for _, m := range s.machs {
+		ms = append(ms, m)
+	}
+	b := s.b
+	s.mu.Unlock()
+	for _, m := range ms {
+		atomic.StoreInt32(&m.dead, 1)
+		m.cancel()
+	}
+	if b != nil {
+		for _, m := range b.Machines() {
+			m.Cancel()
+		}
+	}
+}
+
 // Hosts returns the names of all machines ever started, alive or not.
 func (s *System) Hosts() []string {
 	s.mu.Lock()
